@@ -111,7 +111,7 @@ type c05TopRow struct {
 	Cum  int64
 }
 
-var c05TopCall = regexp.MustCompile(`(?s)makeTopTable\((-?\d+),\s*(\[.*?\]|null)\);`)
+var c05TopCall = regexp.MustCompile(`(?s)makeTopTable\(\s*(-?\d+)\s*,\s*(\[.*?\]|null)\s*\);`)
 var c05TopLine = regexp.MustCompile(`Showing top (\d+) nodes out of (\d+)`)
 var c05AccLine = regexp.MustCompile(`Showing nodes accounting for [^<]*`)
 
@@ -137,6 +137,9 @@ func c05Web(c *Ctx, cs *c05Case, handlers map[string]http.Handler, specCache map
 		return
 	}
 	body := rec.Body.String()
+	if os.Getenv("VERIF_DEBUG") != "" {
+		os.WriteFile("/tmp/c05_top_page.html", []byte(body), 0o644)
+	}
 	m := c05TopCall.FindStringSubmatch(body)
 	if m == nil {
 		c.Violation(sigp+"unparsable", "no makeTopTable(total, rows) call in the page"+desc, cs)
@@ -178,7 +181,10 @@ func c05Web(c *Ctx, cs *c05Case, handlers map[string]http.Handler, specCache map
 	U := specCache[key]
 	if U == nil {
 		var perr string
-		if U, perr = askTables(c, "graph.spec", &rq, nil, false, p0, cs.Profile); perr != "" {
+		t0 := time.Now()
+		U, perr = askTables(c, "graph.spec", &rq, nil, false, p0, cs.Profile)
+		c05Debug("graph.spec on the large profile: %v", time.Since(t0))
+		if perr != "" {
 			c.Disagree("C05/spec-unavailable", perr, "driver op graph.spec", cs)
 			return
 		}
@@ -219,7 +225,9 @@ func c05Web(c *Ctx, cs *c05Case, handlers map[string]http.Handler, specCache map
 			w.int(U.Flat[k].W)
 			w.int(U.Cum[k].W)
 		}
+		t0 := time.Now()
 		f := strings.Fields(c.Drv.Ask("trim.text " + w.String()))
+		c05Debug("trim.text: %v", time.Since(t0))
 		if len(f) < 3 || f[0] != "ok" {
 			return nil, nil, 0, "trim.text: " + trunc(strings.Join(f, " "))
 		}
@@ -369,7 +377,9 @@ func c05WebStream(c *Ctx, cliCases *[]*c05Case) {
 		}
 		// CLI text reports on the same profile, nodecount around the limits and the entry count
 		if c.Pprof != "" {
-			for _, nc := range []int{499, 500, 501, entries - 1, entries, 80} {
+			ncs := []int{499, 500, 501, entries - 1, entries, 80}
+			for j := 0; j < 3; j++ {
+				nc := ncs[(2*k+j*2+j/2)%len(ncs)]
 				cc := &c05Case{Level: "cli", Profile: canon, Format: "text", NodeCount: nc, FracNum: 0, FracDen: 1, EdgeNum: 0, EdgeDen: 1,
 					CumSort: r.Bool(), Gran: "functions", Req: gReq{VI: r.Intn(2)}}
 				*cliCases = append(*cliCases, cc)
